@@ -52,10 +52,29 @@ def _names(s):
     return out
 
 
+PAYLOAD = {
+    "Call": {1}, "CallWithKwargs": {1, 2}, "Sum": {0}, "Product": {0}, "BitwiseOr": {0},
+    "BitwiseXor": {0}, "BitwiseAnd": {0}, "LogicalOr": {0}, "LogicalAnd": {0}, "Min": {0},
+    "Max": {0}, "Slice": {0}, "Substitution": {1, 2}, "Derivative": {1},
+}
+
+
+def is_structural(t, path):
+    """A tuple/map that is the payload field of a node (children, parameters, ...), i.e. not an
+    expression by itself."""
+    if not path:
+        return False
+    c = get_at(t, path)
+    parent = get_at(t, path[:-1])
+    if c[0] in ("map", "dict"):
+        return True
+    return c[0] == "tuple" and path[-1] in PAYLOAD.get(parent[0], ())
+
+
 def minimal_failing_subtree(t, fails):
     """First (post-order) sub-spec that fails on its own; None if none (not even *t*)."""
     for path, c in paths(t):
-        if not _is_expr(c):
+        if not _is_expr(c) or is_structural(t, path):
             continue
         # only the payload tuple of an n-ary node is not an input by itself unless the check says so
         k = fails(c)
@@ -83,10 +102,7 @@ def shrink(s, kind, fails, budget=200):
                 if c[0] == "tuple" and len(c) > 3:
                     for j in range(1, len(c)):
                         cands.append(c[:j] + c[j + 1:])
-                parent = get_at(s, path[:-1])
-                structural = (c[0] in ("tuple", "map", "dict") and parent[0][0].isupper()
-                              and not (parent[0] == "Subscript" and path[-1] == 1))
-                if not structural:
+                if not is_structural(s, path):
                     cands.append(None)  # fresh variable
             for cand in cands:
                 budget -= 1
@@ -107,6 +123,26 @@ def shrink(s, kind, fails, budget=200):
                     break
             if changed:
                 break
+    return generalise(s, kind, fails, used)
+
+
+def generalise(s, kind, fails, used=None):
+    """Replace every leaf (variable or constant) by its own fresh variable where the failure
+    (same kind) persists: the most general form of the minimal failing tree."""
+    used = set(used or _names(s))
+    for path, c in list(paths(s)):
+        if not path or is_structural(s, path):
+            continue
+        if c[0] == "Variable" or c[0] in ("int", "float", "bool", "complex"):
+            u2 = set(used)
+            cand = _fresh(u2, "u")
+            try:
+                s2 = replace_at(s, path, cand)
+                k2 = fails(s2)
+            except Exception:  # noqa: BLE001
+                k2 = None
+            if k2 == kind:
+                s, used = s2, u2
     return s
 
 
